@@ -57,4 +57,165 @@ theorem jitintersectLoop_ok (s1 e1 s2 e2 : Array Int) (h1 : s1.size = e1.size) (
   | case4 i j out hi j' hj => exact ho
   | case5 i j out hi => exact ho
 
+/-! ## completeness of the intersect sweep on canonical operands -/
+
+theorem canon_st_step (st en : Array Int) (hm : st.size = en.size) (hc : Canon st en hm) (k : Nat) (h : k + 1 < st.size) :
+    st[k] < st[k+1] := by
+  have := hc.1 k (by omega); have := hc.2 k h; omega
+
+theorem canon_sep (st en : Array Int) (hm : st.size = en.size) (hc : Canon st en hm) (a d : Nat) (h : a + d + 1 < st.size) :
+    en[a]'(by omega) < st[a + d + 1] := by
+  induction d with
+  | zero => exact hc.2 a h
+  | succ d ih =>
+    have h1 := ih (by omega)
+    have h2 := canon_st_step st en hm hc (a + d + 1) (by omega)
+    have e : a + (d + 1) + 1 = a + d + 1 + 1 := by omega
+    simp only [e]; omega
+
+theorem canon_sep' (st en : Array Int) (hm : st.size = en.size) (hc : Canon st en hm) (a b : Nat) (hab : a < b) (hb : b < st.size) :
+    en[a]'(by omega) < st[b] := by
+  have := canon_sep st en hm hc a (b - a - 1) (by omega)
+  have e : a + (b - a - 1) + 1 = b := by omega
+  simp only [e] at this; exact this
+
+theorem canon_st_mono (st en : Array Int) (hm : st.size = en.size) (hc : Canon st en hm) (a b : Nat) (hab : a ≤ b) (hb : b < st.size) :
+    st[a]'(by omega) ≤ st[b] := by
+  rcases Nat.eq_or_lt_of_le hab with h | h
+  · subst h; exact Int.le_refl _
+  · have := canon_sep' st en hm hc a b h hb; have := hc.1 a (by omega); omega
+
+theorem canon_en_mono (st en : Array Int) (hm : st.size = en.size) (hc : Canon st en hm) (a b : Nat) (hab : a ≤ b) (hb : b < st.size) :
+    en[a]'(by omega) ≤ en[b]'(by omega) := by
+  rcases Nat.eq_or_lt_of_le hab with h | h
+  · subst h; exact Int.le_refl _
+  · have := canon_sep' st en hm hc a b h hb; have := hc.1 b hb; omega
+
+theorem skipTo_skipped (e2 : Array Int) (s : Int) (j : Nat) (b : Nat) (hjb : j ≤ b) (hb : b < skipTo e2 s j) (hb2 : b < e2.size) :
+    e2[b] ≤ s := by
+  fun_induction skipTo e2 s j with
+  | case1 j hj hgt => omega
+  | case2 j hj hle ih =>
+    rcases Nat.eq_or_lt_of_le hjb with h | h
+    · subst h; omega
+    · exact ih (by omega) hb
+  | case3 j hj => omega
+
+/-- intervals `a` of A and `b` of B overlap with positive length -/
+def Ovl (s1 e1 s2 e2 : Array Int) (h1 : s1.size = e1.size) (h2 : s2.size = e2.size) (a b : Nat) : Prop :=
+  ∃ ha : a < s1.size, ∃ hb : b < s2.size, s1[a] < e2[b]'(h2 ▸ hb) ∧ s2[b] < e1[a]'(h1 ▸ ha)
+
+def ICovered (s1 e1 s2 e2 : Array Int) (h1 : s1.size = e1.size) (h2 : s2.size = e2.size) (i j : Nat) (out : IOut) : Prop :=
+  ∀ a b, Ovl s1 e1 s2 e2 h1 h2 a b → (a < i ∨ b < j) → (a, b) ∈ out.par
+
+theorem jitintersectLoop_complete (s1 e1 s2 e2 : Array Int) (h1 : s1.size = e1.size) (h2 : s2.size = e2.size)
+    (hcA : Canon s1 e1 h1) (hcB : Canon s2 e2 h2) (i j : Nat) (out : IOut)
+    (hinv : ICovered s1 e1 s2 e2 h1 h2 i j out) (a b : Nat) (hab : Ovl s1 e1 s2 e2 h1 h2 a b) :
+    (a, b) ∈ (jitintersectLoop s1 e1 s2 e2 h1 h2 i j out).par := by
+  fun_induction jitintersectLoop s1 e1 s2 e2 h1 h2 i j out with
+  | case1 i j out hi j' hj hj2 hi1 hov out' hlt ih =>
+    apply ih
+    intro a' b' hab' hor
+    obtain ⟨ha', hb', o1, o2⟩ := hab'
+    simp only [out', Array.mem_push]
+    by_cases hd : a' < i ∨ b' < j
+    · exact Or.inl (hinv a' b' ⟨ha', hb', o1, o2⟩ hd)
+    · have hai : i ≤ a' := by omega
+      have hbj : j ≤ b' := by omega
+      have hbj' : b' ≤ j' := by omega
+      -- b' < j' impossible: skipped ones end before s1[i] ≤ s1[a']
+      rcases Nat.eq_or_lt_of_le hbj' with hb'' | hb''
+      · subst hb''
+        rcases Nat.eq_or_lt_of_le hai with ha'' | ha''
+        · subst ha''; exact Or.inr rfl
+        · exfalso
+          have := canon_sep' s1 e1 h1 hcA i a' ha'' ha'
+          omega
+      · exfalso
+        have h3 := skipTo_skipped e2 s1[i] j b' hbj hb'' (by omega)
+        have h4 := canon_st_mono s1 e1 h1 hcA i a' hai ha'
+        omega
+  | case2 i j out hi j' hj hj2 hi1 hov out' hge ih =>
+    apply ih
+    intro a' b' hab' hor
+    obtain ⟨ha', hb', o1, o2⟩ := hab'
+    simp only [out', Array.mem_push]
+    by_cases hd : a' < i ∨ b' < j
+    · exact Or.inl (hinv a' b' ⟨ha', hb', o1, o2⟩ hd)
+    · have hai : i ≤ a' := by omega
+      have hbj : j ≤ b' := by omega
+      by_cases hbl : b' < j'
+      · exfalso
+        have h3 := skipTo_skipped e2 s1[i] j b' hbj hbl (by omega)
+        have h4 := canon_st_mono s1 e1 h1 hcA i a' hai ha'
+        omega
+      · have ha'' : a' = i := by omega
+        subst ha''
+        rcases Nat.eq_or_lt_of_le (show j' ≤ b' by omega) with hb'' | hb''
+        · subst hb''; exact Or.inr rfl
+        · exfalso
+          have := canon_sep' s2 e2 h2 hcB j' b' hb'' hb'
+          omega
+  | case3 i j out hi j' hj hj2 hi1 hnov ih =>
+    apply ih
+    intro a' b' hab' hor
+    obtain ⟨ha', hb', o1, o2⟩ := hab'
+    by_cases hd : a' < i ∨ b' < j
+    · exact hinv a' b' ⟨ha', hb', o1, o2⟩ hd
+    · exfalso
+      have hai : i ≤ a' := by omega
+      have hbj : j ≤ b' := by omega
+      by_cases hbl : b' < j'
+      · have h3 := skipTo_skipped e2 s1[i] j b' hbj hbl (by omega)
+        have h4 := canon_st_mono s1 e1 h1 hcA i a' hai ha'
+        omega
+      · have ha'' : a' = i := by omega
+        subst ha''
+        have := canon_st_mono s2 e2 h2 hcB j' b' (by omega) hb'
+        omega
+  | case4 i j out hi j' hj =>
+    obtain ⟨ha', hb', o1, o2⟩ := hab
+    by_cases hd : a < i ∨ b < j
+    · exact hinv a b ⟨ha', hb', o1, o2⟩ hd
+    · exfalso
+      have h3 := skipTo_skipped e2 s1[i] j b (by omega) (by omega) (by omega)
+      have h4 := canon_st_mono s1 e1 h1 hcA i a (by omega) ha'
+      omega
+  | case5 i j out hi =>
+    obtain ⟨ha', hb', o1, o2⟩ := hab
+    exact hinv a b ⟨ha', hb', o1, o2⟩ (Or.inl (by omega))
+
+/-! ## membership in an output of the union kernels -/
+
+/-- membership of an instant in a `UOut` -/
+def InU (o : UOut) (x : Int) : Prop :=
+  ∃ k, ∃ h1 : k < o.st.size, ∃ h2 : k < o.en.size, o.st[k] ≤ x ∧ x ≤ o.en[k]
+
+theorem InU_push (o : UOut) (hsz : o.st.size = o.en.size) (s e x : Int) :
+    InU { st := o.st.push s, en := o.en.push e } x ↔ InU o x ∨ (s ≤ x ∧ x ≤ e) := by
+  constructor
+  · rintro ⟨k, h1, h2, a, b⟩
+    simp only [Array.size_push] at h1 h2
+    by_cases hk : k < o.st.size
+    · left
+      refine ⟨k, hk, by omega, ?_, ?_⟩
+      · simpa [Array.getElem_push_lt hk] using a
+      · have hk2 : k < o.en.size := by omega
+        simpa [Array.getElem_push_lt hk2] using b
+    · right
+      have hk1 : k = o.st.size := by omega
+      subst hk1
+      constructor
+      · simpa using a
+      · have : o.st.size = o.en.size := hsz
+        simp only [this] at b ⊢
+        simpa using b
+  · rintro (⟨k, h1, h2, a, b⟩ | ⟨a, b⟩)
+    · refine ⟨k, by simp; omega, by simp; omega, ?_, ?_⟩
+      · simpa [Array.getElem_push_lt h1] using a
+      · simpa [Array.getElem_push_lt h2] using b
+    · refine ⟨o.st.size, by simp, by simp; omega, ?_, ?_⟩
+      · simpa using a
+      · simp only [hsz]; simpa using b
+
 end Pyn
